@@ -325,64 +325,169 @@ func ruleLayoutSilent(c *Ctx, r *Report, rule string, spec *langSpec) {
 		r.bad(rule, "lexStart", "function not found", "")
 		return
 	}
+	// where lexStart sends a space and the comment marker: read off its model (whatever the dispatch is spelled like)
 	var spaceFn, commentFn string
-	ast.Inspect(start.Body, func(n ast.Node) bool {
-		sw, ok := n.(*ast.SwitchStmt)
-		if !ok || sw.Tag != nil {
-			return true
-		}
-		for _, a := range c.switchArms(sw) {
-			if len(a.Exprs) != 1 || len(a.Body) != 1 {
-				continue
-			}
-			rs, ok := a.Body[0].(*ast.ReturnStmt)
-			if !ok || len(rs.Results) != 1 {
-				continue
-			}
-			target := ""
-			if id, ok := rs.Results[0].(*ast.Ident); ok {
-				target = c.identFn(id)
-			}
-			switch x := stripParens(a.Exprs[0]).(type) {
-			case *ast.CallExpr:
-				if c.calleeName(x) == "isSpace" {
-					spaceFn = target
-				}
-			case *ast.BinaryExpr:
-				if k, isC := c.intConst(x.Y); isC && x.Op == token.EQL && k == spec.CommentStart {
-					commentFn = target
-				}
+	sm := c.lexStateModel(start)
+	for _, u := range sm.Undecided {
+		r.undecided(rule, "lexStart/model", u, c.pos(start.Pos()))
+	}
+	for _, p := range sm.Paths {
+		last := ""
+		for _, e := range p.Log {
+			if strings.HasPrefix(e, "#1") {
+				last = e
 			}
 		}
-		return true
-	})
-	// space state
+		if p.Ret == "nil" || p.Ret == "?" || p.Ret == "lexStart" {
+			continue
+		}
+		if last == "#1:isSpace" {
+			spaceFn = p.Ret
+		}
+		if last == "#1=="+runeLit(spec.CommentStart) {
+			commentFn = p.Ret
+		}
+	}
+	// which decisions count as "is a space" / "is an end of line": the class predicate, or membership in a
+	// constant string holding exactly the documented set
+	setName := func(want []int64) func(d string) (known bool, truth bool, which string) {
+		return func(d string) (bool, bool, string) { return false, false, "" }
+	}
+	_ = setName
+	classOf := func(dec string, pred string, want []int64) (is bool, truth bool) {
+		// dec: "#k:isSpace", "#k:!isSpace", `#k:in"…"`, `#k:!in"…"`
+		i := strings.Index(dec, ":")
+		if !strings.HasPrefix(dec, "#") || i < 0 {
+			return false, false
+		}
+		body := dec[i+1:]
+		truth = true
+		if strings.HasPrefix(body, "!") {
+			truth, body = false, body[1:]
+		}
+		if body == pred {
+			return true, truth
+		}
+		if strings.HasPrefix(body, "in") {
+			if str, err := strconv.Unquote(body[2:]); err == nil {
+				got := map[int64]bool{}
+				for _, r := range str {
+					got[int64(r)] = true
+				}
+				if len(got) == len(want) {
+					same := true
+					for _, w := range want {
+						if !got[w] {
+							same = false
+						}
+					}
+					if same {
+						return true, truth
+					}
+				}
+			}
+		}
+		return false, false
+	}
+	// space state: per iteration the rune is consumed iff it is a space; otherwise it is given back, the run is ignored,
+	// lexStart follows; nothing is emitted
 	if fd := sf[spaceFn]; fd == nil {
 		r.bad(rule, "space-state", "lexStart does not dispatch isSpace(r) to a state function", c.pos(start.Pos()))
 	} else {
-		calls := c.callsOf(fd)
-		okRun, okIgnore := false, false
-		for _, cs := range calls {
-			if cs.Name == "lexer.acceptRunFunc" && len(cs.Call.Args) == 1 {
-				if id, ok := cs.Call.Args[0].(*ast.Ident); ok && c.identFn(id) == "isSpace" {
-					okRun = true
+		m := c.lexStateModel(fd)
+		for _, u := range m.Undecided {
+			r.undecided(rule, "space-state/model", u, c.pos(fd.Pos()))
+		}
+		ok, why := len(m.Paths) > 0, ""
+		conts, exits := 0, 0
+		for _, p := range m.Paths {
+			log := strings.Join(p.Log, " ")
+			var decs []string
+			for _, e := range p.Log {
+				if strings.HasPrefix(e, "#") {
+					decs = append(decs, e)
+				}
+				if strings.HasPrefix(e, "emit") || e == "fail" || e == "error" {
+					ok, why = false, "the space state emits or fails: "+log
 				}
 			}
-			if cs.Name == "lexer.ignore" {
-				okIgnore = true
+			if len(decs) != 1 {
+				ok, why = false, "a rune of a whitespace run is examined otherwise than by the whitespace test: "+log
+				continue
+			}
+			is, truth := classOf(decs[0], "isSpace", spec.Whitespace)
+			if !is {
+				ok, why = false, "the run is delimited by "+decs[0]+", not by the documented whitespace set"
+				continue
+			}
+			if truth {
+				conts++
+				if p.Ret != "(loops)" || strings.Contains(log, "backup") {
+					ok, why = false, "a whitespace rune does not simply continue the run: "+log
+				}
+			} else {
+				exits++
+				tail := log[strings.Index(log, decs[0]):]
+				if p.Ret != "lexStart" || !strings.Contains(tail, "backup") || !strings.Contains(tail, "ignore") || strings.Index(tail, "backup") > strings.Index(tail, "ignore") {
+					ok, why = false, "at the first non-space rune the state must give it back, ignore the run and return lexStart: "+log
+				}
 			}
 		}
-		em := c.emitsIn(fd)
-		ret := returnsOnly(fd, "lexStart")
-		r.check(okRun && okIgnore && len(em) == 0 && ret, rule, "space-state", "consume a run of isSpace, ignore, back to lexStart, no token", fmt.Sprintf("%s must consume a run of isSpace, ignore it and return lexStart without emitting (emits %v)", spaceFn, em), c.pos(fd.Pos()))
+		r.check(ok && conts > 0 && exits > 0, rule, "space-state", "consume a run of whitespace, give back the first other rune, ignore, back to lexStart, no token", fmt.Sprintf("%s: %s", spaceFn, why), c.pos(fd.Pos()))
 	}
-	// comment state
+	// comment state: runs up to (not including) the next end of line or the end of input
 	if fd := sf[commentFn]; fd == nil {
 		r.bad(rule, "comment-state", "lexStart does not dispatch '#' to a state function", c.pos(start.Pos()))
 	} else {
-		em := c.emitsIn(fd)
-		ok, why := c.commentLoopShape(fd)
-		r.check(ok && len(em) == 0, rule, "comment-state", "loop: r := next(); stop at isEol(r) or eof; backup; ignore; lexStart", fmt.Sprintf("%s: %s (emits %v)", commentFn, why, em), c.pos(fd.Pos()))
+		m := c.lexStateModel(fd)
+		for _, u := range m.Undecided {
+			r.undecided(rule, "comment-state/model", u, c.pos(fd.Pos()))
+		}
+		ok, why := len(m.Paths) > 0, ""
+		conts, stopsEol, stopsEOF := 0, 0, 0
+		for _, p := range m.Paths {
+			log := strings.Join(p.Log, " ")
+			eol, eof, known := "", "", true
+			for _, e := range p.Log {
+				switch {
+				case strings.HasPrefix(e, "emit") || e == "fail" || e == "error":
+					ok, why = false, "the comment state emits or fails: "+log
+				case strings.HasSuffix(e, "==eof"):
+					eof = "true"
+				case strings.HasSuffix(e, "!=eof"):
+					eof = "false"
+				case strings.HasPrefix(e, "#"):
+					if is, truth := classOf(e, "isEol", spec.Eol); is {
+						eol = map[bool]string{true: "true", false: "false"}[truth]
+					} else {
+						known = false
+						ok, why = false, "the comment is delimited by "+e+": only the end-of-line set and the end of input may end it"
+					}
+				}
+			}
+			if !known {
+				continue
+			}
+			switch {
+			case eol == "true" || eof == "true":
+				if eol == "true" {
+					stopsEol++
+				} else {
+					stopsEOF++
+				}
+				if p.Ret != "lexStart" || !strings.Contains(log, "backup") || !strings.Contains(log, "ignore") || strings.Index(log, "backup") > strings.Index(log, "ignore") {
+					ok, why = false, "at an end of line / the end of input the comment state must give the rune back, ignore the comment and return lexStart: "+log
+				}
+			case eol == "false" && eof == "false":
+				conts++
+				if p.Ret != "(loops)" || strings.Contains(log, "backup") {
+					ok, why = false, "a rune inside a comment does not simply continue it: "+log
+				}
+			default:
+				ok, why = false, "a path through the comment state tests only one of (end of line, end of input): "+log
+			}
+		}
+		r.check(ok && conts > 0 && stopsEol > 0 && stopsEOF > 0, rule, "comment-state", "consume up to (not including) the next end of line or the end of input; ignore; lexStart; no token", fmt.Sprintf("%s: %s", commentFn, why), c.pos(fd.Pos()))
 	}
 }
 
@@ -525,40 +630,131 @@ func (c *Ctx) commentLoopShape(fd *ast.FuncDecl) (bool, string) {
 
 // ruleStringOpaque: the quote loop.
 func ruleStringOpaque(c *Ctx, r *Report, rule string) {
-	r.rule(rule, 1, "inside a string literal the lexer stops only at the closing quote, at a newline or at end of input (both failures); a backslash consumes the following rune whatever it is (unless it is a newline or end of input)")
+	r.rule(rule, 1, "inside a string literal the lexer stops only at the closing quote, at a newline or at end of input (both failures); a backslash consumes the following rune whatever it is (unless it is a newline or end of input); no other rune and no character class is looked at")
 	sf := c.stateFuncs()
-	// the state lexStart enters on '"'
 	start := sf["lexStart"]
 	quoteFn := ""
 	if start != nil {
-		ast.Inspect(start.Body, func(n ast.Node) bool {
-			sw, ok := n.(*ast.SwitchStmt)
-			if !ok || sw.Tag != nil {
-				return true
-			}
-			for _, a := range c.switchArms(sw) {
-				if len(a.Exprs) == 1 && len(a.Body) == 1 {
-					if be, ok := stripParens(a.Exprs[0]).(*ast.BinaryExpr); ok && be.Op == token.EQL {
-						if k, isC := c.intConst(be.Y); isC && k == '"' {
-							if rs, ok := a.Body[0].(*ast.ReturnStmt); ok && len(rs.Results) == 1 {
-								if id, ok := rs.Results[0].(*ast.Ident); ok {
-									quoteFn = c.identFn(id)
-								}
-							}
-						}
-					}
+		for _, p := range c.lexStateModel(start).Paths {
+			last := ""
+			for _, e := range p.Log {
+				if strings.HasPrefix(e, "#1") {
+					last = e
 				}
 			}
-			return true
-		})
+			if last == `#1=='"'` && p.Ret != "nil" && p.Ret != "lexStart" {
+				quoteFn = p.Ret
+			}
+		}
 	}
 	fd := sf[quoteFn]
 	if fd == nil {
 		r.bad(rule, "quote-state", "lexStart does not dispatch '\"' to a state function", "")
 		return
 	}
-	ok, why := c.quoteLoopShape(fd)
-	r.check(ok, rule, "quote-state", "loop over next(): '\\\\' eats one more rune; eof/newline fail; '\"' ends", quoteFn+": "+why, c.pos(fd.Pos()))
+	m := c.lexStateModel(fd)
+	for _, u := range m.Undecided {
+		r.undecided(rule, "quote-state/model", u, c.pos(fd.Pos()))
+	}
+	// every path through one iteration of the scanning loop, by what is known about the rune(s) it looked at
+	ok, why := true, ""
+	seen := map[string]int{}
+	for _, p := range m.Paths {
+		// the part of the log inside the loop
+		inLoop := false
+		var loopLog []string
+		closed := false
+		for _, e := range p.Log {
+			switch {
+			case e == "loop{":
+				inLoop = true
+			case e == "}exit" || e == "}cont":
+				inLoop = false
+				closed = closed || e == "}exit"
+			case inLoop:
+				loopLog = append(loopLog, e)
+			}
+		}
+		if len(loopLog) == 0 {
+			ok, why = false, "a path does not go through the scanning loop: "+strings.Join(p.Log, " ")
+			continue
+		}
+		log := strings.Join(loopLog, " ")
+		// facts about rune 1 and rune 2 of the iteration
+		fact := func(k int, lit string) string { // "t", "f", ""
+			for _, e := range loopLog {
+				if e == fmt.Sprintf("#%d==%s", k, lit) {
+					return "t"
+				}
+				if e == fmt.Sprintf("#%d!=%s", k, lit) {
+					return "f"
+				}
+			}
+			return ""
+		}
+		for _, e := range loopLog {
+			if strings.Contains(e, ":") && strings.HasPrefix(e, "#") {
+				ok, why = false, "a character class is consulted inside a string literal: "+e
+			}
+			if strings.HasPrefix(e, "#") {
+				lit := e[strings.IndexAny(e, "=!")+2:]
+				switch lit {
+				case `'"'`, `'\\'`, `'\n'`, "eof":
+				default:
+					ok, why = false, "inside a string literal the rune "+lit+" is treated specially: "+log
+				}
+			}
+			if e == "backup" || e == "ignore" || strings.HasPrefix(e, "emit") {
+				ok, why = false, "the string loop gives back, ignores or emits: "+log
+			}
+		}
+		nexts := strings.Count(log, "next#")
+		failed := strings.Contains(log, "fail")
+		switch {
+		case fact(1, `'"'`) == "t":
+			seen["close"]++
+			if !closed || failed || nexts != 1 {
+				ok, why = false, "a quote must end the literal: "+log
+			}
+		case fact(1, `'\\'`) == "t":
+			if nexts != 2 {
+				ok, why = false, "a backslash must consume exactly one more rune: "+log
+			}
+			switch {
+			case fact(2, "eof") == "t" || fact(2, `'\n'`) == "t":
+				seen["esc-fail"]++
+				if !failed {
+					ok, why = false, "a backslash before a newline / the end of input must fail: "+log
+				}
+			case fact(2, "eof") == "f" && fact(2, `'\n'`) == "f":
+				seen["esc-any"]++
+				if failed || p.Ret != "(loops)" {
+					ok, why = false, "a backslash followed by any other rune continues the literal: "+log
+				}
+			default:
+				ok, why = false, "after a backslash only newline and end of input may be told apart: "+log
+			}
+		case fact(1, "eof") == "t" || fact(1, `'\n'`) == "t":
+			seen["unterminated"]++
+			if !failed || nexts != 1 {
+				ok, why = false, "a newline / the end of input inside a literal must fail: "+log
+			}
+		default:
+			seen["other"]++
+			if failed || p.Ret != "(loops)" || nexts != 1 || fact(1, `'"'`) != "f" || fact(1, `'\\'`) != "f" || fact(1, "eof") != "f" || fact(1, `'\n'`) != "f" {
+				ok, why = false, "any other rune must simply continue the literal: "+log
+			}
+		}
+	}
+	for _, k := range []string{"close", "esc-fail", "esc-any", "unterminated", "other"} {
+		if seen[k] == 0 {
+			ok = false
+			if why == "" {
+				why = "no path for the case " + k
+			}
+		}
+	}
+	r.check(ok, rule, "quote-state", "per rune: '\"' ends; '\\\\' eats one more rune (newline/eof fail); newline/eof fail; anything else continues", quoteFn+": "+why, c.pos(fd.Pos()))
 }
 
 func (c *Ctx) quoteLoopShape(fd *ast.FuncDecl) (bool, string) {
@@ -810,20 +1006,25 @@ func ruleStickyTable(c *Ctx, r *Report, rule string) {
 	got := map[string][]string{}
 	where := map[string]string{}
 	for _, name := range sortedKeys(sf) {
+		if name == "lexStart" {
+			continue // the dispatcher: its one- and two-rune tokens end with themselves
+		}
 		fd := sf[name]
-		// tokens the state emits
+		m := c.lexStateModel(fd)
+		for _, u := range m.Undecided {
+			r.undecided(rule, name+"/model", u, c.pos(fd.Pos()))
+		}
 		emits := map[string]bool{}
-		walkCalls(fd.Body, false, func(call *ast.CallExpr) {
-			if c.calleeName(call) == "lexer.emit" && len(call.Args) == 1 {
-				if v, ok := c.intConst(call.Args[0]); ok {
-					emits[constNameOf(constsOfType(c.Bcl, "tokenType"), v)] = true
-				} else {
-					emits["word"] = true // a token type computed at run time: keyword or identifier
+		for _, p := range m.Paths {
+			for _, e := range p.Log {
+				if strings.HasPrefix(e, "emit:") {
+					t := strings.TrimPrefix(e, "emit:")
+					if t == "?" {
+						t = "word"
+					}
+					emits[t] = true
 				}
 			}
-		})
-		if len(emits) == 0 {
-			continue
 		}
 		kind := ""
 		switch {
@@ -838,30 +1039,42 @@ func ruleStickyTable(c *Ctx, r *Report, rule string) {
 		default:
 			continue
 		}
-		// the refusing ifs: body ends in `return l.fail(...)`, condition is about the peeked rune
-		ast.Inspect(fd.Body, func(n ast.Node) bool {
-			ifs, ok := n.(*ast.IfStmt)
-			if !ok || len(ifs.Body.List) == 0 {
-				return true
+		// refusals: a rune is peeked (next, backup), examined, taken back in (unbackup) and the state fails;
+		// the class is the last thing learnt about that rune, which must be a positive fact
+		classes := map[string]bool{}
+		for _, p := range m.Paths {
+			if len(p.Log) < 2 || p.Log[len(p.Log)-1] != "fail" || p.Log[len(p.Log)-2] != "unbackup" {
+				continue
 			}
-			rs, ok := ifs.Body.List[len(ifs.Body.List)-1].(*ast.ReturnStmt)
-			if !ok || len(rs.Results) != 1 {
-				return true
+			// the peeked rune: the last next#k
+			k := ""
+			for _, e := range p.Log {
+				if strings.HasPrefix(e, "next#") {
+					k = strings.TrimPrefix(e, "next")
+				}
 			}
-			call, ok := rs.Results[0].(*ast.CallExpr)
-			if !ok || !c.isFailingHelper(c.calleeName(call), 0) {
-				return true
+			last := ""
+			for _, e := range p.Log {
+				if strings.HasPrefix(e, k+"=") || strings.HasPrefix(e, k+"!") || strings.HasPrefix(e, k+":") {
+					last = strings.TrimPrefix(e, k)
+				}
 			}
-			init, _ := ifs.Init.(*ast.AssignStmt)
-			classes, about := c.runeClasses(fd, ifs.Cond, init, nil, 0)
-			if !about {
-				return true
+			switch {
+			case strings.HasPrefix(last, "=="):
+				classes[last[2:]] = true
+			case strings.HasPrefix(last, ":") && !strings.HasPrefix(last, ":!"):
+				classes[last[1:]] = true
+			default:
+				classes["?"+last] = true
 			}
-			sort.Strings(classes)
-			got[kind] = append(got[kind], strings.Join(classes, " "))
-			where[kind] = c.pos(ifs.Pos())
-			return true
-		})
+		}
+		var cl []string
+		for k := range classes {
+			cl = append(cl, k)
+		}
+		sort.Strings(cl)
+		got[kind] = append(got[kind], strings.Join(cl, " "))
+		where[kind] = c.pos(fd.Pos())
 	}
 	// two states emit tINT (decimal and hex): compare as a sorted pair
 	sort.Strings(got["tINT"])
